@@ -1232,11 +1232,14 @@ class ClientSession:
                 headers = CIMultiDict(headers)
             added_names: set[str] = set()
             for key, value in headers.items():
-                if key in added_names:
+                # header names are case-insensitive: "X-Tag" and "x-tag" are
+                # two values of one field, not one replacing the other
+                lkey = key.lower()
+                if lkey in added_names:
                     result.add(key, value)
                 else:
                     result[key] = value
-                    added_names.add(key)
+                    added_names.add(lkey)
         return result
 
     def _get_netrc_auth(self, host: str) -> str | None:
